@@ -106,7 +106,7 @@ IsPrefix(a, b) == Size(a) <= Size(b) /\ SameBytes(a, Sub(b, 0, Size(a)))
 
 VARIABLES
   \* client
-  cstate, nops, nbars, nsetl, nseth, closeCall, stopCall, released, wsub,
+  cstate, mode, nops, nbars, nsetl, nseth, closeCall, stopCall, released, wsub,
   \* channel
   flags, clow, chigh, chFd,
   \* queues and stream state
@@ -117,24 +117,27 @@ VARIABLES
   \* kernel
   kin, kout,
   \* ghosts
-  hist, ninv, last, doneCnt, dcat, consumed, written, sched
+  hist, ninv, last, doneCnt, dcat, consumed, written, sched,
+  \* convenience API (dispatch_read / dispatch_write)
+  cacc, cerr, cuser, cres
 
-cvars == <<cstate, nops, nbars, nsetl, nseth, closeCall, stopCall, released, wsub>>
+cvars == <<cstate, mode, nops, nbars, nsetl, nseth, closeCall, stopCall, released, wsub>>
 chvars == <<flags, clow, chigh, chFd>>
 stvars == <<sq, pend, sops, cur, srcRun>>
 libvars == <<op, opq, grp, fdref, dord>>
 clvars == <<clq, cleanupRuns>>
 kvars == <<kin, kout>>
 gvars == <<consumed, written>>
+convvars == <<cacc, cerr, cuser, cres>>
 hvars == <<hist, ninv, last, doneCnt, dcat>>
-vars == <<cvars, chvars, chq, bq, bqSusp, stvars, libvars, bars, clvars, kvars, hvars, gvars, sched>>
+vars == <<cvars, chvars, chq, bq, bqSusp, stvars, libvars, bars, clvars, kvars, hvars, gvars, sched, convvars>>
 
 Blk(k, o, v) == [k |-> k, o |-> o, v |-> v]
 NoPend == [o |-> 0, res |-> "none"]
 
 NoneOp == [st |-> "none", dir |-> "R", len |-> 0, wdata |-> <<>>, low |-> 0, high |-> 0,
            data |-> <<>>, hasbuf |-> FALSE, bufsiz |-> 0, buflen |-> 0, buf |-> <<>>,
-           undel |-> 0, total |-> 0, err |-> 0, ac |-> FALSE]
+           undel |-> 0, total |-> 0, err |-> 0, ac |-> FALSE, conv |-> FALSE]
 
 RECURSIVE SumInv(_)
 SumInv(S) == IF S = {} THEN 0 ELSE LET o == CHOOSE x \in S : TRUE IN ninv[o] + SumInv(S \ {o})
@@ -142,15 +145,20 @@ NH == SumInv(Ops)
 NoInv == [done |-> FALSE, data |-> <<>>, null |-> TRUE, err |-> 0]
 Log(a, v, w) == sched' = IF Rec THEN Append(sched, [a |-> a, v |-> v, w |-> w, nh |-> NH]) ELSE sched
 
+ConvMode == "conv" \in Feat
+NoRes == [data |-> <<>>, null |-> TRUE, err |-> 0]
 Init ==
+  /\ mode = (IF ConvMode THEN "conv" ELSE "chan")
+  /\ cacc = [o \in Ops |-> <<>>] /\ cerr = [o \in Ops |-> 0]
+  /\ cuser = [o \in Ops |-> "none"] /\ cres = [o \in Ops |-> NoRes]
   /\ cstate = "burst" /\ nops = 0 /\ nbars = 0 /\ nsetl = 0 /\ nseth = 0
   /\ closeCall = FALSE /\ stopCall = FALSE /\ released = FALSE /\ wsub = 0
-  /\ flags = {} /\ clow = Chunk /\ chigh = INF /\ chFd = TRUE
+  /\ flags = {} /\ clow = Chunk /\ chigh = INF /\ chFd = ~ConvMode
   /\ chq = <<>> /\ bq = <<>> /\ bqSusp = 0
   /\ sq = [d \in Dirs |-> <<>>] /\ pend = [d \in Dirs |-> NoPend]
   /\ sops = [d \in Dirs |-> <<>>] /\ cur = [d \in Dirs |-> 0] /\ srcRun = [d \in Dirs |-> FALSE]
   /\ op = [o \in Ops |-> NoneOp] /\ opq = [o \in Ops |-> <<>>]
-  /\ grp = 0 /\ fdref = 1 /\ dord = [d \in Dirs |-> <<>>]
+  /\ grp = 0 /\ fdref = (IF ConvMode THEN 0 ELSE 1) /\ dord = [d \in Dirs |-> <<>>]
   /\ bars = [b \in Bars |-> [st |-> "none", before |-> 0]]
   /\ clq = "held" /\ cleanupRuns = 0
   /\ kin = [wpos |-> IF InFile THEN MaxIn ELSE 0, rpos |-> 0, closed |-> InFile]
@@ -171,14 +179,14 @@ CSetLow(v) ==
   /\ ~released
   /\ chq' = Append(chq, Blk("setlow", 0, v))
   /\ nsetl' = nsetl + 1 /\ Log("low", v, 0)
-  /\ UNCHANGED <<cstate, nops, nbars, nseth, closeCall, stopCall, released, wsub, chvars, bq,
-                 bqSusp, stvars, libvars, bars, clvars, kvars, hvars, gvars>>
+  /\ UNCHANGED <<cstate, mode, nops, nbars, nseth, closeCall, stopCall, released, wsub, chvars, bq,
+                 bqSusp, stvars, libvars, bars, clvars, kvars, hvars, gvars, convvars>>
 CSetHigh(v) ==
   /\ ~released
   /\ chq' = Append(chq, Blk("sethigh", 0, v))
   /\ nseth' = nseth + 1 /\ Log("high", v, 0)
-  /\ UNCHANGED <<cstate, nops, nbars, nsetl, closeCall, stopCall, released, wsub, chvars, bq,
-                 bqSusp, stvars, libvars, bars, clvars, kvars, hvars, gvars>>
+  /\ UNCHANGED <<cstate, mode, nops, nbars, nsetl, closeCall, stopCall, released, wsub, chvars, bq,
+                 bqSusp, stvars, libvars, bars, clvars, kvars, hvars, gvars, convvars>>
 
 \* dispatch_io_read(channel, 0, n, q, handler) / dispatch_io_write(channel, 0, data, q, handler);
 \* regs = the regions of the data object of a write (consecutive bytes of the outbound source)
@@ -189,16 +197,30 @@ CSubmit(o, d, n, regs) ==
   /\ nops' = o /\ wsub' = wsub + Size(regs)
   /\ chq' = Append(chq, Blk("op", o, 0))
   /\ Log(IF d = "R" THEN "read" ELSE "write", n, IF Len(regs) = 2 THEN regs[1][2] ELSE 0)
-  /\ UNCHANGED <<cstate, nbars, nsetl, nseth, closeCall, stopCall, released, chvars, bq, bqSusp,
-                 stvars, opq, grp, fdref, dord, bars, clvars, kvars, hvars, gvars>>
+  /\ UNCHANGED <<cstate, mode, nbars, nsetl, nseth, closeCall, stopCall, released, chvars, bq, bqSusp,
+                 stvars, opq, grp, fdref, dord, bars, clvars, kvars, hvars, gvars, convvars>>
+
+\* dispatch_read(fd, n, q, handler) / dispatch_write(fd, data, q, handler): _dispatch_fd_entry_init_async
+\* looks the fd_entry up (or creates it) retained, and runs the rest on the barrier queue.  A new
+\* fd_entry generation starts when the previous one has been closed.
+CConv(o, d, n, regs) ==
+  /\ mode = "conv" /\ o = nops + 1 /\ o \in Ops
+  /\ op' = [op EXCEPT ![o] = [NoneOp EXCEPT !.st = "chq", !.dir = d, !.len = n, !.wdata = regs, !.conv = TRUE]]
+  /\ nops' = o /\ wsub' = wsub + Size(regs)
+  /\ fdref' = fdref + 1
+  /\ clq' = "held"
+  /\ bq' = Append(bq, Blk("cenq", o, 0))
+  /\ Log(IF d = "R" THEN "cread" ELSE "cwrite", n, IF Len(regs) = 2 THEN regs[1][2] ELSE 0)
+  /\ UNCHANGED <<cstate, mode, nbars, nsetl, nseth, closeCall, stopCall, released, chvars, chq, bqSusp,
+                 stvars, opq, grp, dord, bars, cleanupRuns, kvars, hvars, gvars, convvars>>
 
 CBarrier(b) ==
   /\ ~released /\ b = nbars + 1 /\ b \in Bars
   /\ bars' = [bars EXCEPT ![b] = [st |-> "chq", before |-> nops]]
   /\ nbars' = b
   /\ chq' = Append(chq, Blk("barrier", b, 0)) /\ Log("barrier", b, 0)
-  /\ UNCHANGED <<cstate, nops, nsetl, nseth, closeCall, stopCall, released, wsub, chvars, bq,
-                 bqSusp, stvars, libvars, clvars, kvars, hvars, gvars>>
+  /\ UNCHANGED <<cstate, mode, nops, nsetl, nseth, closeCall, stopCall, released, wsub, chvars, bq,
+                 bqSusp, stvars, libvars, clvars, kvars, hvars, gvars, convvars>>
 
 \* dispatch_io_close(channel, 0): "Don't close an already closed or stopped channel"
 CClose ==
@@ -206,8 +228,8 @@ CClose ==
   /\ closeCall' = TRUE
   /\ chq' = IF flags = {} THEN Append(chq, Blk("close", 0, 0)) ELSE chq
   /\ Log("close", 0, 0)
-  /\ UNCHANGED <<cstate, nops, nbars, nsetl, nseth, stopCall, released, wsub, chvars, bq, bqSusp,
-                 stvars, libvars, bars, clvars, kvars, hvars, gvars>>
+  /\ UNCHANGED <<cstate, mode, nops, nbars, nsetl, nseth, stopCall, released, wsub, chvars, bq, bqSusp,
+                 stvars, libvars, bars, clvars, kvars, hvars, gvars, convvars>>
 
 \* dispatch_io_close(channel, DISPATCH_IO_STOP) -> _dispatch_io_stop: the flag is set by the caller
 CStop ==
@@ -217,14 +239,14 @@ CStop ==
      ELSE /\ flags' = flags \cup {"stopped"}
           /\ chq' = Append(chq, Blk("stopc", 0, 0))
   /\ Log("stop", 0, 0)
-  /\ UNCHANGED <<nops, nbars, nsetl, nseth, closeCall, released, wsub, clow, chigh, chFd, bq,
-                 bqSusp, stvars, libvars, bars, clvars, kvars, hvars, gvars>>
+  /\ UNCHANGED <<mode, nops, nbars, nsetl, nseth, closeCall, released, wsub, clow, chigh, chFd, bq,
+                 bqSusp, stvars, libvars, bars, clvars, kvars, hvars, gvars, convvars>>
 
 \* dispatch_release(channel): the client's reference
 CRelease ==
   /\ ~released /\ released' = TRUE /\ Log("release", 0, 0)
-  /\ UNCHANGED <<cstate, nops, nbars, nsetl, nseth, closeCall, stopCall, wsub, chvars, chq, bq,
-                 bqSusp, stvars, libvars, bars, clvars, kvars, hvars, gvars>>
+  /\ UNCHANGED <<cstate, mode, nops, nbars, nsetl, nseth, closeCall, stopCall, wsub, chvars, chq, bq,
+                 bqSusp, stvars, libvars, bars, clvars, kvars, hvars, gvars, convvars>>
 
 (* ------------------------------ channel queue ------------------------------ *)
 ChqStep ==
@@ -253,7 +275,7 @@ ChqStep ==
        [] b.k = "barrier" ->
             /\ bq' = Append(bq, b) /\ bars' = [bars EXCEPT ![b.o].st = "bq"]
             /\ UNCHANGED <<chvars, op>>
-  /\ UNCHANGED <<cvars, bqSusp, stvars, opq, grp, fdref, dord, clvars, kvars, hvars, gvars, sched>>
+  /\ UNCHANGED <<cvars, bqSusp, stvars, opq, grp, fdref, dord, clvars, kvars, hvars, gvars, convvars, sched>>
 
 (* ------------------------------ deliveries ------------------------------ *)
 Inv(done, data, null, err) == [done |-> done, data |-> IF null THEN <<>> ELSE data, null |-> null, err |-> err]
@@ -347,7 +369,8 @@ ImmRef == IF "imm_noref" \in Dev THEN FALSE ELSE chFd
 ImmErr(e) == IF e # 0 \/ "zero_noerr" \in Dev THEN e ELSE IF flags # {} THEN ECANCELED ELSE 0
 BqStep ==
   /\ bqSusp = 0 /\ bq # <<>>
-  /\ bq' = Tail(bq)
+  /\ ~(Head(bq).k = "cenq" /\ op[Head(bq).o].len = 0) => bq' = Tail(bq)
+  /\ cuser' = IF Head(bq).k = "cenq" THEN [cuser EXCEPT ![Head(bq).o] = "pending"] ELSE cuser
   /\ LET b == Head(bq) IN
      CASE b.k = "imm" ->
             \* the error / zero-length path of _dispatch_operation_create: handler(true, d, err)
@@ -368,6 +391,21 @@ BqStep ==
                  IN /\ SetLib([S1 EXCEPT !.op[o].st = "rejected"])
                     /\ UNCHANGED <<chvars, bqSusp, sq, bars>>
             ELSE /\ SetLib([LibS EXCEPT !.op[o].st = "sq", !.grp = @ + 1, !.fdref = @ + 1])
+                 /\ sq' = [sq EXCEPT ![r.dir] = Append(@, Blk("senq", o, 0))]
+                 /\ UNCHANGED <<chvars, bqSusp, bars>>
+       [] b.k = "cenq" ->
+            \* the init callback of dispatch_read / dispatch_write, on the barrier queue: the user's
+            \* handler goes onto the (suspended) close queue, the operation is created on the
+            \* convenience channel and enqueued at once; then the callback's reference is dropped
+            LET o == b.o
+                r == op[o] IN
+            IF r.len = 0
+            THEN /\ op' = [op EXCEPT ![o].st = "imm"]
+                 /\ bq' = Append(Tail(bq), Blk("imm", o, 0))
+                 /\ fdref' = fdref - 1
+                 /\ UNCHANGED <<chvars, bqSusp, sq, bars, opq, grp, dord>>
+            ELSE /\ SetLib([LibS EXCEPT !.op[o].st = "sq", !.op[o].low = Chunk, !.op[o].high = INF,
+                                         !.grp = @ + 1])
                  /\ sq' = [sq EXCEPT ![r.dir] = Append(@, Blk("senq", o, 0))]
                  /\ UNCHANGED <<chvars, bqSusp, bars>>
        [] b.k = "close" ->
@@ -392,18 +430,18 @@ BqStep ==
             /\ bqSusp' = bqSusp + 1
             /\ bars' = [bars EXCEPT ![b.o].st = "armed"]
             /\ UNCHANGED <<chvars, sq, libvars>>
-  /\ UNCHANGED <<cvars, chq, pend, sops, cur, srcRun, clvars, kvars, hvars, gvars, sched>>
+  /\ UNCHANGED <<cvars, chq, pend, sops, cur, srcRun, clvars, kvars, hvars, gvars, cacc, cerr, cres, sched>>
 
 \* group count zero -> the notify block runs the client's barrier block
 BarrierStart(b) ==
   /\ bars[b].st = "armed" /\ grp = 0
   /\ bars' = [bars EXCEPT ![b].st = "running"]
-  /\ UNCHANGED <<cvars, chvars, chq, bq, bqSusp, stvars, libvars, clvars, kvars, hvars, gvars, sched>>
+  /\ UNCHANGED <<cvars, chvars, chq, bq, bqSusp, stvars, libvars, clvars, kvars, hvars, gvars, convvars, sched>>
 BarrierEnd(b) ==
   /\ bars[b].st = "running"
   /\ bars' = [bars EXCEPT ![b].st = "done"]
   /\ bqSusp' = bqSusp - 1
-  /\ UNCHANGED <<cvars, chvars, chq, bq, stvars, libvars, clvars, kvars, hvars, gvars, sched>>
+  /\ UNCHANGED <<cvars, chvars, chq, bq, stvars, libvars, clvars, kvars, hvars, gvars, convvars, sched>>
 
 (* ------------------------------ stream queues ------------------------------ *)
 SqHead(d, k) == pend[d].o = 0 /\ sq[d] # <<>> /\ Head(sq[d]).k = k
@@ -424,7 +462,7 @@ SqSenq(d) ==
         ELSE /\ SetLib([S0 EXCEPT !.op[o].st = "listed"])
              /\ sops' = [sops EXCEPT ![d] = Append(@, o)]
              /\ sq' = [sq EXCEPT ![d] = IF sops[d] = <<>> THEN Requeue(Tail(@)) ELSE Tail(@)]
-  /\ UNCHANGED <<cvars, chvars, chq, bq, bqSusp, pend, cur, srcRun, bars, clvars, kvars, hvars, gvars, sched>>
+  /\ UNCHANGED <<cvars, chvars, chq, bq, bqSusp, pend, cur, srcRun, bars, clvars, kvars, hvars, gvars, convvars, sched>>
 
 \* _dispatch_stream_cleanup_operations (posted by STOP), then the fd_entry release of the block
 SqCleanup(d) ==
@@ -435,7 +473,7 @@ SqCleanup(d) ==
   /\ cur' = [cur EXCEPT ![d] = 0]
   /\ srcRun' = [srcRun EXCEPT ![d] = FALSE]
   /\ sq' = [sq EXCEPT ![d] = Tail(@)]
-  /\ UNCHANGED <<cvars, chvars, chq, bq, bqSusp, pend, bars, clvars, kvars, hvars, gvars, sched>>
+  /\ UNCHANGED <<cvars, chvars, chq, bq, bqSusp, pend, bars, clvars, kvars, hvars, gvars, convvars, sched>>
 
 \* _dispatch_stream_pick_next_operation (stream-type operations only)
 PickOne(c, list) == IF c # 0 THEN c
@@ -485,8 +523,11 @@ PerformRead(d, o, KS(_, _)) ==
   \/ /\ avail = 0 /\ kin.closed /\ "kerr" \in Feat   \* e.g. ECONNRESET on a socket
      /\ op' = [op EXCEPT ![o] = [r EXCEPT !.err = EKERN]] /\ SetPend(d, o, "COMPLETE")
      /\ UNCHANGED <<kin, kout, consumed, written>>
-  \/ /\ avail = 0 /\ ~kin.closed                \* EAGAIN
-     /\ op' = [op EXCEPT ![o] = r] /\ SetPend(d, o, "RESUME")
+  \/ /\ (avail = 0 /\ ~kin.closed) \/ (TraceMode /\ r.conv /\ ~kin.closed)    \* EAGAIN
+     \* "Convenience read with available data completes on EAGAIN" (the log point of a peer
+     \* write precedes the write, so in TraceMode EAGAIN is possible while bytes are announced)
+     /\ op' = [op EXCEPT ![o] = r]
+     /\ SetPend(d, o, IF r.conv /\ r.total > 0 THEN "CRESUME" ELSE "RESUME")
      /\ UNCHANGED <<kin, kout, consumed, written>>
 
 PerformWrite(d, o, KS(_, _)) ==
@@ -530,7 +571,7 @@ SqPerform(d, KS(_, _)) ==
                /\ fdref' = fdref + 1                    \* _dispatch_fd_entry_retain
                /\ IF d = "R" THEN PerformRead(d, o, KS) ELSE PerformWrite(d, o, KS)
                /\ UNCHANGED <<sops, opq, grp, dord>>
-  /\ UNCHANGED <<cvars, chvars, chq, bq, bqSusp, srcRun, bars, clvars, hvars, sched>>
+  /\ UNCHANGED <<cvars, chvars, chq, bq, bqSusp, srcRun, bars, clvars, hvars, sched, convvars>>
 
 \* the switch on the result, deliveries, completion, re-arming
 SqFinish(d) ==
@@ -561,12 +602,19 @@ SqFinish(d) ==
                /\ cur' = [cur EXCEPT ![d] = 0]
                /\ sq' = [sq EXCEPT ![d] = IF RemoveOp(sops[d], o) # <<>> THEN Requeue(@) ELSE @]
                /\ UNCHANGED srcRun
+          [] res = "CRESUME" ->    \* DISPATCH_OP_COMPLETE_RESUME
+               /\ force = "strict"
+               /\ SetLib([CompleteIn(LibS, d, o, stopped) EXCEPT !.fdref = @ - 1])
+               /\ sops' = [sops EXCEPT ![d] = RemoveOp(@, o)]
+               /\ cur' = [cur EXCEPT ![d] = 0]
+               /\ srcRun' = [srcRun EXCEPT ![d] = RemoveOp(sops[d], o) # <<>>]
+               /\ UNCHANGED sq
           [] res = "RESUME" ->
                /\ force = "strict" /\ stopped = ("stopped" \in flags)
                /\ srcRun' = [srcRun EXCEPT ![d] = TRUE]
                /\ fdref' = fdref - 1
                /\ UNCHANGED <<sq, sops, cur, op, opq, grp, dord>>
-  /\ UNCHANGED <<cvars, chvars, chq, bq, bqSusp, bars, clvars, kvars, hvars, gvars, sched>>
+  /\ UNCHANGED <<cvars, chvars, chq, bq, bqSusp, bars, clvars, kvars, hvars, gvars, convvars, sched>>
 
 \* the read / write source of the stream fires: _dispatch_stream_source_handler
 Ready(d) == IF d = "R" THEN kin.wpos > kin.rpos \/ kin.closed
@@ -575,7 +623,7 @@ SourceFire(d) ==
   /\ srcRun[d] /\ Ready(d)
   /\ srcRun' = [srcRun EXCEPT ![d] = FALSE]
   /\ sq' = [sq EXCEPT ![d] = Requeue(@)]
-  /\ UNCHANGED <<cvars, chvars, chq, bq, bqSusp, pend, sops, cur, libvars, bars, clvars, kvars, hvars, gvars, sched>>
+  /\ UNCHANGED <<cvars, chvars, chq, bq, bqSusp, pend, sops, cur, libvars, bars, clvars, kvars, hvars, gvars, convvars, sched>>
 
 (* ------------------------------ handlers, cleanup ------------------------------ *)
 \* one invocation of the operation's handler (op_q is a serial queue: one at a time, FIFO);
@@ -589,22 +637,39 @@ HandlerRun(o) ==
      /\ last' = [last EXCEPT ![o] = blk.inv[1]]
      /\ doneCnt' = [doneCnt EXCEPT ![o] = IF blk.inv[1].done THEN @ + 1 ELSE @]
      /\ dcat' = [dcat EXCEPT ![o] = Norm(@ \o blk.inv[1].data)]
+     \* the internal handler of dispatch_read concatenates, the one of dispatch_write keeps the
+     \* data of the done invocation; both keep the error of the done invocation
+     /\ LET inv == blk.inv[1] IN
+        IF ~op[o].conv THEN UNCHANGED <<cacc, cerr>>
+        ELSE /\ cacc' = [cacc EXCEPT ![o] = IF op[o].dir = "R" THEN (IF inv.null THEN @ ELSE Norm(@ \o inv.data))
+                                            ELSE IF inv.done /\ ~inv.null THEN inv.data ELSE @]
+             /\ cerr' = [cerr EXCEPT ![o] = IF inv.done THEN inv.err ELSE @]
      /\ IF Len(blk.inv) = 1
         THEN /\ opq' = [opq EXCEPT ![o] = Tail(@)]
              /\ fdref' = IF blk.ref THEN fdref - 1 ELSE fdref
         ELSE /\ opq' = [opq EXCEPT ![o] = <<[blk EXCEPT !.inv = Tail(@)]>> \o Tail(@)]
              /\ UNCHANGED fdref
-  /\ UNCHANGED <<cvars, chvars, chq, bq, bqSusp, stvars, op, grp, dord, bars, clvars, kvars, gvars, sched>>
+  /\ UNCHANGED <<cvars, chvars, chq, bq, bqSusp, stvars, op, grp, dord, bars, clvars, kvars, gvars, cuser, cres, sched>>
 
 \* every reference on the fd_entry is gone: the close queue runs and posts the cleanup handler
 CloseQRun ==
   /\ fdref = 0 /\ clq = "held"
+  /\ mode = "conv" => \E o \in Ops : cuser[o] = "pending"     \* (an fd_entry exists)
   /\ clq' = "posted"
-  /\ UNCHANGED <<cvars, chvars, chq, bq, bqSusp, stvars, libvars, bars, cleanupRuns, kvars, hvars, gvars, sched>>
+  \* the handlers of the convenience calls were waiting on the close queue
+  /\ cuser' = [o \in Ops |-> IF cuser[o] = "pending" THEN "posted" ELSE cuser[o]]
+  /\ UNCHANGED <<cvars, chvars, chq, bq, bqSusp, stvars, libvars, bars, cleanupRuns, kvars, hvars, gvars, cacc, cerr, cres, sched>>
+\* handler(deliver_data, err) of dispatch_read / dispatch_write
+ConvRun(o) ==
+  /\ cuser[o] = "posted"
+  /\ cuser' = [cuser EXCEPT ![o] = "ran"]
+  /\ cres' = [cres EXCEPT ![o] = [data |-> cacc[o], null |-> (op[o].dir = "W" /\ cacc[o] = <<>>), err |-> cerr[o]]]
+  /\ UNCHANGED <<cvars, chvars, chq, bq, bqSusp, stvars, libvars, bars, clvars, kvars, hvars, gvars, cacc, cerr, sched>>
 CleanupRun ==
+  /\ mode = "chan"
   /\ clq = "posted"
   /\ clq' = "ran" /\ cleanupRuns' = cleanupRuns + 1
-  /\ UNCHANGED <<cvars, chvars, chq, bq, bqSusp, stvars, libvars, bars, kvars, hvars, gvars, sched>>
+  /\ UNCHANGED <<cvars, chvars, chq, bq, bqSusp, stvars, libvars, bars, kvars, hvars, gvars, convvars, sched>>
 
 \* _dispatch_io_dispose: last reference (the client's, every block's and operation's) gone
 ChannelIdle == /\ chq = <<>> /\ bq = <<>>
@@ -614,30 +679,31 @@ ChannelIdle == /\ chq = <<>> /\ bq = <<>>
 ChannelDispose ==
   /\ released /\ chFd /\ flags = {} /\ ChannelIdle
   /\ chFd' = FALSE /\ fdref' = fdref - 1
-  /\ UNCHANGED <<cvars, flags, clow, chigh, chq, bq, bqSusp, stvars, op, opq, grp, dord, bars, clvars, kvars, hvars, gvars, sched>>
+  /\ UNCHANGED <<cvars, flags, clow, chigh, chq, bq, bqSusp, stvars, op, opq, grp, dord, bars, clvars, kvars, hvars, gvars, convvars, sched>>
 
 (* ------------------------------ the peer / kernel environment ------------------------------ *)
 PeerWrite(k) ==
   /\ ~kin.closed
   /\ kin' = [kin EXCEPT !.wpos = @ + k] /\ UNCHANGED kout /\ Log("pw", k, 0)
-  /\ UNCHANGED <<cvars, chvars, chq, bq, bqSusp, stvars, libvars, bars, clvars, hvars, gvars>>
+  /\ UNCHANGED <<cvars, chvars, chq, bq, bqSusp, stvars, libvars, bars, clvars, hvars, gvars, convvars>>
 PeerClose ==
   /\ ~kin.closed
   /\ kin' = [kin EXCEPT !.closed = TRUE] /\ UNCHANGED kout /\ Log("pc", 0, 0)
-  /\ UNCHANGED <<cvars, chvars, chq, bq, bqSusp, stvars, libvars, bars, clvars, hvars, gvars>>
+  /\ UNCHANGED <<cvars, chvars, chq, bq, bqSusp, stvars, libvars, bars, clvars, hvars, gvars, convvars>>
 PeerRead(k) ==
   /\ k >= 1 /\ kout.pread + k <= Size(kout.content)
   /\ kout' = [kout EXCEPT !.pread = @ + k] /\ UNCHANGED kin /\ Log("pr", k, 0)
-  /\ UNCHANGED <<cvars, chvars, chq, bq, bqSusp, stvars, libvars, bars, clvars, hvars, gvars>>
+  /\ UNCHANGED <<cvars, chvars, chq, bq, bqSusp, stvars, libvars, bars, clvars, hvars, gvars, convvars>>
 PeerHup ==
   /\ ~kout.hup
   /\ kout' = [kout EXCEPT !.hup = TRUE] /\ UNCHANGED kin /\ Log("ph", 0, 0)
-  /\ UNCHANGED <<cvars, chvars, chq, bq, bqSusp, stvars, libvars, bars, clvars, hvars, gvars>>
+  /\ UNCHANGED <<cvars, chvars, chq, bq, bqSusp, stvars, libvars, bars, clvars, hvars, gvars, convvars>>
 
 (* ------------------------------ next-state relation (model checking) ------------------------------ *)
 AllK(o, m) == 1 .. m
 
 WriteRegs(n) == \* the fragmentations of a write of n bytes that are explored
+  IF n = 0 THEN {<<>>} ELSE
   {<< <<wsub, n>> >>} \cup
   (IF "frag" \in Feat THEN {<< <<wsub, a>>, <<wsub + a, n - a>> >> : a \in 1 .. (n - 1)} ELSE {})
 
@@ -645,21 +711,23 @@ ClientBurst ==
   /\ cstate = "burst"
   /\ \/ /\ "low" \in Feat /\ nsetl = 0 /\ nops = 0 /\ \E v \in Marks : CSetLow(v)
      \/ /\ "high" \in Feat /\ nseth = 0 /\ nops = 0 /\ \E v \in Marks : CSetHigh(v)
-     \/ /\ "R" \in UseDirs /\ \E n \in Lens : CSubmit(nops + 1, "R", n, <<>>)
-     \/ /\ "W" \in UseDirs /\ \E n \in Lens \ {0, INF} : \E regs \in WriteRegs(n) : CSubmit(nops + 1, "W", n, regs)
-     \/ /\ "W" \in UseDirs /\ 0 \in Lens /\ CSubmit(nops + 1, "W", 0, <<>>)
-     \/ /\ nops > 0 /\ CBarrier(nbars + 1)
-     \/ /\ "close" \in Feat /\ ~closeCall /\ CClose
-     \/ /\ "release" \in Feat /\ CRelease
+     \/ /\ mode = "chan" /\ "R" \in UseDirs /\ \E n \in Lens : CSubmit(nops + 1, "R", n, <<>>)
+     \/ /\ mode = "chan" /\ "W" \in UseDirs /\ \E n \in Lens \ {0, INF} : \E regs \in WriteRegs(n) : CSubmit(nops + 1, "W", n, regs)
+     \/ /\ mode = "chan" /\ "W" \in UseDirs /\ 0 \in Lens /\ CSubmit(nops + 1, "W", 0, <<>>)
+     \/ /\ mode = "conv" /\ "R" \in UseDirs /\ \E n \in Lens : CConv(nops + 1, "R", n, <<>>)
+     \/ /\ mode = "conv" /\ "W" \in UseDirs /\ \E n \in Lens \ {INF} : \E regs \in WriteRegs(n) : CConv(nops + 1, "W", n, regs)
+     \/ /\ mode = "chan" /\ nops > 0 /\ CBarrier(nbars + 1)
+     \/ /\ mode = "chan" /\ "close" \in Feat /\ ~closeCall /\ CClose
+     \/ /\ mode = "chan" /\ "release" \in Feat /\ CRelease
      \/ /\ cstate' = "run"
-        /\ UNCHANGED <<nops, nbars, nsetl, nseth, closeCall, stopCall, released, wsub, chvars, chq, bq,
-                       bqSusp, stvars, libvars, bars, clvars, kvars, hvars, gvars, sched>>
-ClientStop == /\ cstate = "run" /\ "stop" \in Feat /\ ~stopCall /\ ~released
+        /\ UNCHANGED <<mode, nops, nbars, nsetl, nseth, closeCall, stopCall, released, wsub, chvars, chq, bq,
+                       bqSusp, stvars, libvars, bars, clvars, kvars, hvars, gvars, convvars, sched>>
+ClientStop == /\ cstate = "run" /\ mode = "chan" /\ "stop" \in Feat /\ ~stopCall /\ ~released
               /\ CStop /\ cstate' = "burst"
 
 Lib == \/ ChqStep \/ BqStep
        \/ \E d \in Dirs : SqSenq(d) \/ SqCleanup(d) \/ SqPerform(d, AllK) \/ SqFinish(d) \/ SourceFire(d)
-       \/ \E o \in Ops : HandlerRun(o)
+       \/ \E o \in Ops : HandlerRun(o) \/ ConvRun(o)
        \/ \E b \in Bars : BarrierStart(b) \/ BarrierEnd(b)
        \/ CloseQRun \/ CleanupRun \/ ChannelDispose
 
@@ -679,7 +747,7 @@ Spec == Init /\ [][Next]_vars
 Fair == /\ WF_vars(ChqStep) /\ WF_vars(BqStep)
         /\ \A d \in Dirs : /\ WF_vars(SqSenq(d)) /\ WF_vars(SqCleanup(d)) /\ WF_vars(SqPerform(d, AllK))
                            /\ WF_vars(SqFinish(d)) /\ WF_vars(SourceFire(d))
-        /\ \A o \in Ops : WF_vars(HandlerRun(o))
+        /\ \A o \in Ops : WF_vars(HandlerRun(o)) /\ WF_vars(ConvRun(o))
         /\ \A b \in Bars : WF_vars(BarrierStart(b)) /\ WF_vars(BarrierEnd(b))
         /\ WF_vars(CloseQRun) /\ WF_vars(CleanupRun) /\ WF_vars(ChannelDispose)
         /\ WF_vars(cstate = "burst" /\ ClientBurst /\ cstate' = "run")
@@ -762,9 +830,21 @@ StopFlagsFinal ==
          lst == blk.inv[Len(blk.inv)] IN
      (blk.sp /\ lst.done) => lst.err # 0
 
+\* convenience API: the handler runs exactly once (by construction of cuser), with exactly the
+\* bytes the operation consumed (read, at most the requested length) / with the data that did
+\* not reach the descriptor (write); only after the operation is complete
+ConvOk ==
+  \A o \in Submitted : (op[o].conv /\ cuser[o] = "ran") =>
+     /\ op[o].st \in {"disposed", "rejected", "imm"}
+     /\ op[o].len > 0 => (opq[o] = <<>> /\ DoneSeen(o))
+     /\ op[o].dir = "R" => (SameBytes(cres[o].data, consumed[o]) /\ Size(cres[o].data) <= op[o].len)
+     /\ op[o].dir = "W" => SameBytes(written[o] \o cres[o].data, op[o].wdata)
+     /\ (op[o].dir = "W" /\ cres[o].err = 0) => cres[o].data = <<>>
+ConvCompletes == \A o \in Ops : (op[o].conv /\ op[o].st # "none") ~> (cuser[o] = "ran")
+
 Quiescent == /\ chq = <<>> /\ bq = <<>> /\ \A d \in Dirs : sq[d] = <<>> /\ pend[d].o = 0
              /\ \A o \in Ops : opq[o] = <<>>
-Finished == /\ cstate = "run" /\ Quiescent /\ \A o \in Submitted : DoneSeen(o)
+Finished == /\ cstate = "run" /\ Quiescent /\ \A o \in Submitted : (IF op[o].conv THEN cuser[o] = "ran" ELSE DoneSeen(o))
             /\ \A b \in Bars : bars[b].st \in {"none", "done"}
 \* every operation completes; the cleanup handler runs once the channel is closed / released
 EveryOpCompletes == \A o \in Ops : (op[o].st # "none") ~> DoneSeen(o)
